@@ -783,6 +783,35 @@ def c15(tier, seed):
                 o, _ = _observe_config(open(os.path.join(t.root, f)).read())
                 if o != w_:
                     V.append(v("C15", "editorconfig-section-by-file-name", {"argv": list(order), "tree": ecfiles, "file": f, "expected": w_, "observed": o}))
+    # several targets in one invocation (the directory cache is shared between them): every file must come out exactly as
+    # when it is the only target - whatever the order of the arguments, with and without command-line overrides
+    multi_runs = 0
+    for case in range(40 if tier == "thorough" else 14):
+        dirs = ["", "b", "b/c", "d"]
+        mfiles = {}
+        k = 1
+        for d_ in dirs:
+            for name in ("f.lua", "g.lua"):
+                mfiles[os.path.join(d_, name)] = PROBE
+            if rng.random() < 0.5:
+                k += 1
+                mfiles[os.path.join(d_, rng.choice(["stylua.toml", ".stylua.toml"]))] = 'indent_type = "Spaces"\nindent_width = %d\nquote_style = "AutoPreferDouble"\n' % k
+        over = rng.choice([[], ["--quote-style", "ForceSingle"], ["--quote-style", "AutoPreferSingle", "--indent-width", "7"], ["--indent-type", "Tabs"]])
+        targets = [f_ for f_ in mfiles if f_.endswith(".lua")]
+        rng.shuffle(targets)
+        if rng.random() < 0.3:
+            targets = ["."]
+        with Tree(mfiles) as t:
+            rc, out, err = run(over + targets, t.root)
+            multi_runs += 1
+            got = {f_: open(os.path.join(t.root, f_)).read() for f_ in mfiles if f_.endswith(".lua")}
+        for f_ in sorted(got):
+            with Tree(mfiles) as t1:
+                run(over + [f_], t1.root)
+                multi_runs += 1
+                alone = open(os.path.join(t1.root, f_)).read()
+            if alone != got[f_]:
+                V.append(v("C15", "multi-target-differs-from-single-target", {"argv": over + targets, "file": f_, "tree": {k_: v_ for k_, v_ in mfiles.items() if not k_.endswith(".lua")}, "in_one_run": got[f_], "alone": alone}))
     S.append({"c15": {"cases": n, "runs": runs, "target_kinds": dist, "oracle_evaluations": runs}})
     return Q, V, S
 
@@ -807,6 +836,9 @@ def c17(tier, seed):
         "comment-only": "-- c",
         "shebang": "#!/usr/bin/lua\nlocal   x=1\n",
         "unicode": "local s = 'é'\n",
+        # output lines far longer than any stdio buffer, not first in the file, and one long first line
+        "long-line": "local   version=1\nlocal   DATA   =  '" + "0123456789abcdef" * 400 + "'\nreturn   { version = version, data = DATA }\n",
+        "long-lines": "".join("local   s%d   =  '%s'\n" % (i, ("%04d" % i) * (300 + 517 * i)) for i in range(6)),
         "big": big,
     }
     runs = 0
